@@ -41,6 +41,8 @@ def col_array(col):
     k = col["kind"]
     if k == "float":
         return np.array(col["vals"], dtype=float)
+    if k == "float32":
+        return np.array(col["vals"], dtype=np.float32)
     if k == "int":
         return np.array(col["vals"], dtype=np.int64)
     return np.array(col["vals"], dtype="U8")
@@ -159,7 +161,7 @@ def fn_table(spec, rec):
     finally:
         shutil.rmtree(tmp, ignore_errors=True)
     kinds = {c["kind"] for c in spec["cols"]}
-    has_nan = any(c["kind"] == "float" and any(v != v for v in c["vals"]) for c in spec["cols"])
+    has_nan = any(c["kind"] in ("float", "float32") and any(v != v for v in c["vals"]) for c in spec["cols"])
     rec.nt(mask is not None and mask.any() and not mask.all() and has_nan and "str" in kinds)
     rec.label("format:" + spec["format"], "subset:" + ("none" if mask is None else ("full" if mask.all() else "proper")))
     if spec["by_reference"]:
@@ -263,8 +265,10 @@ def table_cases(draw):
     names = draw(st.lists(name_st, min_size=ncol, max_size=ncol, unique_by=lambda s: s.lower()))
     cols = []
     for nm in names:
-        kind = draw(st.sampled_from(["float", "float", "int", "str"]))
-        if kind == "float":
+        kind = draw(st.sampled_from(["float", "float", "int", "str", "float32"]))
+        if kind == "float32":      # single precision: values exactly representable, NaN included
+            vals = draw(st.lists(st.one_of(st.integers(-40, 40).map(lambda k: k / 8.0), st.just(float("nan"))), min_size=n, max_size=n))
+        elif kind == "float":
             vals = draw(st.lists(st.one_of(st.integers(-40, 40).map(lambda k: k / 8.0), st.floats(-1e6, 1e6, allow_nan=False), st.just(float("nan"))), min_size=n, max_size=n))
         elif kind == "int":
             vals = draw(st.lists(st.integers(-1000, 1000), min_size=n, max_size=n))
